@@ -8,6 +8,16 @@ from pyvc.values import Num, SBool, and_, or_, not_, ite, implies, floor_
 from contracts.c05 import contract_reduce_deg
 
 P = REGISTRY.prop("C13")
+
+from contracts import c02 as _c02   # noqa: registers the C02 harnesses
+
+# every finder hands its instant back as Epoch(jde): the constructor decodes the number with get_full_date() and re-encodes it with _compute_jde(); that Epoch(jde).jde() == jde
+# is proved under C01/C02 and assumed by every clause here, so those obligations are run under this property too
+P.include("C02", ["get_date/fractional", "_compute_jde/fractional-day", "get_full_date/fields-and-roundtrip", "input-forms/same-JDE"],
+          only={"input-forms/same-JDE": [dict(form="number")]})
+from contracts import c16 as _c16   # noqa: registers the C16 harnesses
+# every finder starts from the fractional year of the query, Epoch.year() (day of year over the length of the year): proved under C16
+P.include("C16", ["get_doy/equals-JDN-difference", "get_doy/fraction", "year/formula"])
 P.notes["level"] = "proof"
 P.assume_note("proved part: the selection arithmetic of the 28 Meeus ch.36 finders (period count from the query, size "
               "of the periodic corrections by interval arithmetic with |sin|, |cos| <= 1 and |t| over years -2000..4000); "
@@ -202,6 +212,73 @@ for _pl in PERI:
     _mk_peri(_pl, False)
 
 
+# ---- the refinement step: the three radii are tabulated at the instants they were computed for
+def _refine_contracts(pl):
+    import z3
+    from pyvc.interp import SObj
+    R = z3.Function("radius_vector_" + pl, z3.RealSort(), z3.RealSort())
+
+    def c_pos(it, fref, args, kwargs):
+        j = Num.of(args[0].fields["_jde"]).real()
+        return (None, None, Num.real_expr(R(j)))
+
+    def c_table(it, cref, args, kwargs):
+        xs, ys = args[0], args[1]
+        it.info.setdefault("tables", []).append(([Num.of(v) for v in xs], [Num.of(v) for v in ys]))
+        return SObj("Interpolation", {"_idx": len(it.info["tables"]) - 1})
+
+    def c_minmax(it, fref, args, kwargs):
+        xs, _ = it.info["tables"][args[0].fields["_idx"]]
+        if it.branch(it.fresh("extremum_found", "bool")):
+            sol = it.fresh("sol", "real")
+            it.assume(and_(sol >= xs[0], sol <= xs[-1]))
+            it.info["sol"] = sol
+            return sol.as_float() if hasattr(sol, "as_float") else sol
+        raise PyRaise("ValueError", "no extremum inside the table")
+    base = _contracts()
+    base.update({"pymeeus.%s:%s.geometric_heliocentric_position" % (pl, pl): c_pos, "pymeeus.Interpolation:Interpolation": c_table,
+                 "pymeeus.Interpolation:Interpolation.minmax": c_minmax})
+    return base, R
+
+
+def _mk_refine(pl):
+    @P.harness("perihelion_aphelion/refinement-table[%s]" % pl, contracts=lambda: _refine_contracts(pl)[0],
+               functions=["pymeeus.%s:%s.perihelion_aphelion" % (pl, pl)], crosscheck=0, timeout=30)
+    def h(ctx):
+        """the mean instant is refined on a three-point table of the radius vector: whatever window is used (Saturn retries with a
+        wider one), the abscissae are mean - h, mean, mean + h for one h > 0, each radius is tabulated at the very instant it was
+        computed for, and the result is the extremum of the last table built"""
+        if ctx.native:
+            return
+        import z3
+        R = z3.Function("radius_vector_" + pl, z3.RealSort(), z3.RealSort())
+        e = ctx.obj("Epoch")
+        ctx.setfield(e, "_jde", ctx.real("jde", 990600, 3182000))
+        per = ctx.bool("perihelion")
+        try:
+            out = ctx.call("pymeeus.%s:%s.perihelion_aphelion" % (pl, pl), e, per)
+        except PyRaise as ex:
+            ctx.vc("only ValueError (no extremum in any window), after at least one table", ex.cls == "ValueError" and len(ctx.it.info.get("tables", [])) >= 1)
+            out = None
+        tabs = ctx.it.info.get("tables", [])
+        ctx.vc("the radius vector is tabulated before a result is returned", len(tabs) >= 1)
+        for i, (xs, ys) in enumerate(tabs):
+            ctx.vc("table %d: three abscissae, three radii" % (i + 1), len(xs) == 3 and len(ys) == 3)
+            if len(xs) != 3 or len(ys) != 3:
+                continue
+            ctx.vc("table %d: abscissae mean - h, mean, mean + h with h > 0" % (i + 1), and_(xs[1] - xs[0] == xs[2] - xs[1], xs[1] > xs[0]))
+            ctx.vc("table %d: centred on the same mean instant as the first table" % (i + 1), xs[1] == tabs[0][0][1])
+            ctx.vc("table %d: each radius is tabulated at the instant it was computed for" % (i + 1),
+                   and_(*[ys[k] == Num.real_expr(R(xs[k].real())) for k in range(3)]))
+        if out is not None and tabs:
+            ctx.vc("the result is the extremum found in the last table built", ctx.field(out, "_jde") == ctx.it.info.get("sol"))
+    return h
+
+
+for _pl in PERI:
+    _mk_refine(_pl)
+
+
 @P.harness("lemma/round-is-monotone-and-onto", crosscheck=0)
 def h_round(ctx):
     """k(y) = round(x(y)) is non-decreasing in y and takes every integer value (x is affine and increasing in y)"""
@@ -347,9 +424,11 @@ def b_events(rng, tier):
                         except Exception as ex:
                             ok, det, env = False, repr(ex), "beyond-known-envelope"
                         yield ((pl, which, variant, round(q, 2), env, "selection"), ok, det)
-        for era in eras:
-            q = Epoch(jd_of_year(era) + rng.uniform(0, 300))
-            for peri in (True, False):
+        # Saturn events that lie more than 90 days from the mean formula (the wider second window of its refinement)
+        wide = {"Saturn": [(2107.0, False), (2681.0, True), (-1550.0, False), (350.0, False), (1250.0, False), (3212.0, True)]}.get(pl, [])
+        for era, only in [(e_, None) for e_ in eras] + wide:
+            q = Epoch(jd_of_year(era) + (rng.uniform(0, 300) if only is None else 0.0))
+            for peri in ((True, False) if only is None else (only,)):
                 ok, det = True, None
                 try:
                     ev = cls.perihelion_aphelion(q, perihelion=peri)
@@ -362,7 +441,7 @@ def b_events(rng, tier):
                     ok, det = False, repr(ex)
                 env = "inside-known-envelope" if (ok or (isinstance(det, tuple) and max(det[1]) - min(det[1]) < 2e-6)) else "beyond-known-envelope"
                 yield ((pl, "perihelion_aphelion", peri, round(q.jde(), 2), env), ok, det)
-            if hasattr(cls, "passage_nodes") and pl != "Earth":
+            if hasattr(cls, "passage_nodes") and pl != "Earth" and only is None:
                 for asc in (True, False):
                     ok, det = True, None
                     try:
